@@ -723,7 +723,7 @@ def run(ctx):
     ok = ctx.prove(["PhreeqcVerif.Properties.C08"])
     exe, plain = build(ctx)
     timeout = ctx.n(20, 30)
-    n = ctx.n(420, 12000)
+    n = ctx.n(420, 10000)
     if not ok:
         n = max(n, 3000)
     seeds = F.seeds()
